@@ -17,6 +17,12 @@ The terminator clause ("ended by a zero index", whatever follows) is additionall
 of one loop iteration (`_ZeroIndex`): with index 0 assumed for the record at the cursor and nothing else, no path may
 reach a `yield` or start the next record - independent of whether the code peeks 2 bytes or parses first.
 
+The clause "yields the settings ... ended by a zero index or end of data" has a dual scenario walk (`_CompleteRecord`):
+with a complete record (non-zero index, any type / length / value, anything or nothing behind it) assumed at the cursor,
+every exception-free path of the iteration must reach the `yield` before it leaves the loop or starts the next iteration;
+end-of-data tests written as arithmetic on the stream position are folded by interval comparison against the size of
+the fixed part of struct Setting taken from the C definitions.
+
 Verdicts: the located term/site satisfies the condition -> discharged; it is located and differs -> violated; the code
 was reshaped into something the path executor / locator does not model -> undecided.
 
@@ -72,6 +78,36 @@ Lemmas used when facts are combined (`_lookup`, `_cv`):
       Z4  the result of a struct parse is an instance, never None;
       Z5  an integer converted (S1 / int.from_bytes; any byte order, signed or not) from the two index bytes, or from
           a prefix of them, is 0; one converted from more bytes of the look-ahead is 0 iff all of those bytes are 0.
+  L7  (def-use in the per-setting loop, `_plain_loop_locals` / `_read_before_assignment`) the loop body is analysed once
+      with every loop-assigned local forgotten at its entry, and the path executor replaces a local by its defining term
+      from its first assignment on the path onwards.  A local that the loop body binds by plain assignment statements
+      only (reached through if/else nesting alone) and that is still a bare name in the key / value term a path stores
+      is therefore read on that path before any assignment of the same iteration: its reaching definitions are those
+      of an earlier iteration (or none - UnboundLocalError - for the first record), so what is stored is not a function
+      of the record of this iteration.  Paths whose facts exclude every member of SettingsType for the record type lie
+      outside the quantifier ("any type 0-3") and are not judged (finite vocabulary, 5).
+  C1-C7 (scenario "a complete record with a non-zero index lies at the cursor", `_CompleteRecord`; H = the sum of the
+      widths of the fields of struct Setting that are not counted arrays, read from the C definitions - 6):
+      C1  at least H bytes of data lie at the cursor: a look at the first k <= H bytes has length k and is truthy;
+      C2  the index bytes are not 00 00 (a look-ahead differs from every literal that starts with 00 00 or has another
+          length); the first field of the structure parsed at offset 0 lies in [1, 2^16 - 1]: comparisons with literals
+          are decided by interval comparison, the undecided ones are free atoms (any 16-bit index is admitted);
+      C3  an integer converted (S1 / int.from_bytes) from exactly the two index bytes, in any byte order, is not 0;
+      C4  the parsed structure is not None (Z4) and truthy (S2: a non-zero field makes it truthy / it is always truthy);
+      C5  type lies in [min, max] of the members of SettingsType, length in [0, 2^16 - 1] (field widths of the C
+          definitions): comparisons with literals outside the interval are decided, the others stay free atoms; an atom
+          that relates several quantities of the record (value vs. length, two stream reads ...) is not free - a path
+          that needs it makes the obligation undecided;
+      C6  R := (offset of the end of the data) - (offset of the record start) >= H, with R = H exactly for a record of
+          length 0 that ends the data - a complete record the quantifier admits ("ended by ... end of data", "any
+          length 0-65535").  A branch test that is linear in R - polynomial normal form (csverif.absint.SymPoly) over
+          `end` = stream.seek(0, SEEK_END) / len(stream.getvalue()) / len(stream.getbuffer()) / getbuffer().nbytes or
+          a single-definition local holding it, and stream.tell() = record start + cursor offset (flat domain of Z1-Z5;
+          locals bound to tell() or to an expression of tell() at a known offset) - is decided by comparing the
+          interval [H, inf) with the constant; where the interval does not decide it both outcomes occur for
+          admitted inputs.  seek(-len(<look-ahead of k <= H bytes>), SEEK_CUR) moves the cursor by -k (C1);
+      C7  premise: decoding a complete record raises nothing - edges into exception handlers and implicit exception
+          edges out of the function are not followed; an explicit `raise` reached under the scenario is undecided.
 Summaries relied on:
   S1  (integer conversion, `_int_conv`) utils.unpack(data, size, byteorder, signed) is int.from_bytes(data[:size],
       byteorder, signed=signed); partials of it contribute their bound keywords (read from the resolver), defaults
@@ -83,7 +119,10 @@ R1  6 (C definitions parsed and compared completely with the required layout tab
 R2  3 (per-path key/value terms of the per-setting loop body, analysed once), 2 + 5 (paths selected per scenario of
     view flags / record type / index_type; a path whose selection involves other atoms about these subjects is
     undecided), 1 (structural recognition of the conversion call and of the pretty-table application), 6 (constant
-    size/byteorder/signed; parameter defaults); L1-L3, S1.
+    size/byteorder/signed; parameter defaults); L1-L3, S1.  "The stored key / value is computed from the record of
+    the same iteration": 3 (def-use on the path terms, L7), 5 (members of SettingsType) - a key or value term that
+    reads a plainly assigned loop local before its assignment in the iteration is a violation of the scenario the
+    path belongs to.
 R3  3 (per-path return value / stores of each cached view, helpers entered with bound arguments), 2 (the emptiness
     fact `slot is None` on the filling path, `slot` filled on the returning path; L2), 1 (bind_args of the
     settings_map call), 6 (its constant arguments compared with the reference table VIEWS).  Positional pairing:
@@ -105,6 +144,15 @@ R5  2 (CFG reachability / dominance: yield between parse and loop header, termin
     domain Z u {unknown}: read(c) +c, peek/tell +0, seek(c, SEEK_CUR) +c, seek(<tell() taken at offset o>) = o, else
     unknown - decides whether a look-ahead / the struct parse is at offset 0 of the scenario record; flags assigned a
     literal are constant facts of the path), 3 (`inline` of the tests), 6 (C definitions: first field of Setting).
+    "A complete record is always yielded" (`_CompleteRecord`): 2 + 5 (one named scenario - a complete record with a
+    non-zero index lies at the cursor when an iteration starts; the CFG of the loop body is walked once per path,
+    exception edges are not followed, an edge is pruned only when the scenario or earlier facts decide its test:
+    C1-C7, L1-L3; a path that leaves the loop or reaches the loop header before a yield through free atoms only is a
+    violation, one that needs an atom outside C1-C6 makes the obligation undecided), 4 (interval domain for the
+    index / type / length fields and for the number of bytes between the record start and the end of the data;
+    cursor offset in Z u {unknown}; linear comparisons in polynomial normal form), 3 (`inline` of the tests), 6 (C
+    definitions: field widths of Setting, members of SettingsType; the constants the code compares with).  The give-back
+    obligation also accepts seek(-len(p), SEEK_CUR) where p is the local bound to the consuming look-ahead (3).
 R6  2 (facts of the branch edges that dominate the rename / extension site - all of them, so the order of mutually
     exclusive if/elif branches is immaterial), 3 (`inline` of the tests and of the assigned value), 5 + 6 (enum members
     of the C definitions, 36, 9, 0x80); L1, L3, L6.  A guard that establishes index/type/length equal to a term that is
@@ -796,7 +844,11 @@ def run(ctx):
         "MappingProxyType exit), of the four cached views (cache slot, emptiness guard, settings_map arguments; helpers "
         "entered with bound arguments), CFG exit/yield/terminator/seek-back analysis of iter_settings, a path walk of one iteration "
         "of its parse loop under the scenario 'the record at the cursor has index 0' (no path may reach a yield or the next record, "
-        "whatever the other fields and the trailing bytes are), index-36 and "
+        "whatever the other fields and the trailing bytes are), a second path walk under the scenario 'a complete record with a non-zero "
+        "index lies at the cursor' (every exception-free path must reach the yield before leaving the loop; end-of-data tests on the "
+        "stream position are compared, as intervals, with the size of the fixed part of struct Setting from the C definitions), "
+        "def-use of the per-setting loop of settings_map (a key/value term must not read a loop local before its assignment in the "
+        "same iteration: it would carry the previous record's value), index-36 and "
         "User-Agent guards from dominating branch facts (enum members and literals also when named by a single-definition "
         "module-level constant of beacon.py), a length-domain upper bound on the bytes the User-Agent continuation can "
         "append per record (must not be finite), cardinality classes (per record / per distinct key) of the arguments of every "
@@ -804,12 +856,14 @@ def run(ctx):
         "across the package."
     )
     rep.not_decided = ["the numeric values themselves", "alias-name choice for duplicated enum values (16/17/48)", "trailing bytes: only that a zero index ends the iteration whatever follows it (R5), not where the stream is left",
+                       "records whose decoding raises an exception (the complete-record scenario follows exception-free paths only)",
                        "views that are not computed by settings_map and contain no record/key pairing (undecided)",
                        "that the User-Agent continuation stops exactly at the NUL (only that no constant bounds it)",
                        "index-36 / User-Agent guards that compare the index, type or length with a value that is not a constant of beacon.py (undecided)"]
     rep.trusted_base = ["CPython ast", "networkx dominators", "C-definition parser (csverif.cdefs)", "dissect.cstruct parses fields in declaration order",
                         "a module-level name of beacon.py that is bound once and never rebound in the module is not rebound from outside the module",
-                        "dissect.cstruct: the truth value of a structure instance depends on all of its fields (or is constant), never on the first field alone"]
+                        "dissect.cstruct: the truth value of a structure instance depends on all of its fields (or is constant), never on the first field alone",
+                        "binary stream protocol: seek() returns the new absolute position, tell() the current one, read(k) advances by the bytes returned"]
     r1(ctx)
     r2_r4(ctx)
     r3(ctx)
@@ -1189,7 +1243,7 @@ def _settings_map(ctx, f):
                 continue
             stale = _read_before_assignment(k, plain)
             if stale:
-                if _lookup(p.facts, ("eq", "index_type", ("str", "enum"))) is False:
+                if label == "enum" and _lookup(p.facts, ("eq", "index_type", ("str", "enum"))) is False:
                     kagg.add(None, f"the key `{src(k)[:60]}` is not assigned for an index_type that is none of the documented values")
                     continue
                 kagg.add(False, f"index_type={label}: the key `{src(k)[:60]}` reads local `{stale[0]}` before any assignment of the same iteration: "
@@ -2514,6 +2568,9 @@ def r5_r6(ctx):
             o0 = origin(f.node, b["offset"]) if b["offset"] is not None else None
             if cur and isinstance(_c(off), int):
                 (good if _c(off) == -2 else bad).append((c, cst))
+            elif cur and _len_of_peek(f, fv, b["offset"], stream, peek_st):
+                # seek(-len(<the look-ahead>), SEEK_CUR): exactly the bytes the look-ahead consumed (2, or fewer at the end of the data)
+                good.append((c, cst))
             elif absolute and isinstance(o0, ast.Call) and isinstance(o0.func, ast.Attribute) and o0.func.attr == "tell" and dotted(o0.func.value) == stream \
                     and fv.stmt_of(o0) is not None and in_loop(fv.stmt_of(o0)) and cfg.has(fv.stmt_of(o0)) and cfg.node(fv.stmt_of(o0)) != pkn:
                 # the position saved by tell(): the peeked position iff it is taken before the peek in the same iteration
@@ -2635,6 +2692,15 @@ def r5_r6(ctx):
     else:
         ctx.ob("R6", "ABS", f, text, False, f"the continuation appends at most {total} byte(s) per record ({'; '.join(parts)}): a User-Agent whose NUL lies farther away is cut "
                "off and the following records are parsed from the middle of the string", ext[0])
+
+
+def _len_of_peek(f, fv, e, stream, peek_st):
+    """e is `-len(x)` where x is a local whose single definition is the consuming 2-byte look-ahead of statement peek_st."""
+    if not (isinstance(e, ast.UnaryOp) and isinstance(e.op, ast.USub) and isinstance(e.operand, ast.Call) and dotted(e.operand.func) == "len"
+            and len(e.operand.args) == 1 and not e.operand.keywords and isinstance(e.operand.args[0], ast.Name)):
+        return False
+    o = origin(f.node, e.operand.args[0])
+    return o is not e.operand.args[0] and _peek2(o) == (stream, True) and fv.stmt_of(o) is peek_st
 
 
 def _guarded_eq(facts, subj, want):
